@@ -25,6 +25,18 @@ pub trait AdFrame: Frame + Debug + 'static {
     /// Gain parameter q/8.
     fn fparam(q: i64) -> FloatOf<Self>;
     fn spc(q: i64) -> Self::SF;
+    /// The silent frame, stated independently of the library's `EQUILIBRIUM` constants: every channel
+    /// at the middle of the format's range (integers) / at 0.0 (floats).
+    fn eq_ref() -> Self;
+    fn seq_ref() -> Self::SF;
+    fn feq_ref() -> Self::FF;
+    /// Leaf frame made of edge values of the format (minimum, maximum, around equilibrium, powers of two).
+    fn edge_leaf(id: u32, idx: u64) -> Self;
+    /// largest amplitude of the signed companion
+    fn smax() -> SignedOf<Self>;
+    /// gain frame of ones / offset frame of zeros
+    fn ones() -> Self::FF;
+    fn zeros() -> Self::SF;
     fn fpc(q: i64) -> Self::FF;
     /// Independent statement of clip_amp: signed amplitude limited to [-t, t].
     fn clip_ref(self, t: SignedOf<Self>) -> Self;
@@ -47,6 +59,16 @@ pub trait AdFrame: Frame + Debug + 'static {
     /// (0.0 for float formats).
     fn lsb_f64() -> f64;
     const IS_FLOAT: bool;
+}
+
+/// Leaf ids with this bit set stand for frames made of the format's edge values.
+pub const EDGE_BIT: u32 = 1 << 31;
+pub fn any_leaf<F: AdFrame>(id: u32, idx: u64) -> F {
+    if id & EDGE_BIT != 0 {
+        F::edge_leaf(id & !EDGE_BIT, idx)
+    } else {
+        F::leaf(id, idx)
+    }
 }
 
 pub fn leaf_val(id: u32, idx: u64, ch: usize) -> f64 {
@@ -91,6 +113,27 @@ macro_rules! ad_frame {
             }
             fn fparam(q: i64) -> <$S as Sample>::Float {
                 (q as f64 / 8.0).to_sample::<<$S as Sample>::Float>()
+            }
+            fn eq_ref() -> Self {
+                <$T as Frame>::from_fn(|_| raw::from_norm::<$S>(0.0))
+            }
+            fn seq_ref() -> Self::SF {
+                <Self::SF as Frame>::from_fn(|_| raw::from_norm::<<$S as Sample>::Signed>(0.0))
+            }
+            fn feq_ref() -> Self::FF {
+                <Self::FF as Frame>::from_fn(|_| raw::from_norm::<<$S as Sample>::Float>(0.0))
+            }
+            fn edge_leaf(id: u32, idx: u64) -> Self {
+                <$T as Frame>::from_fn(|ch| raw::edge_value::<$S>(id as u64 + idx * 7 + ch as u64 * 3))
+            }
+            fn smax() -> <$S as Sample>::Signed {
+                raw::max_value::<<$S as Sample>::Signed>()
+            }
+            fn ones() -> Self::FF {
+                <Self::FF as Frame>::from_fn(|_| raw::from_norm::<<$S as Sample>::Float>(1.0))
+            }
+            fn zeros() -> Self::SF {
+                <Self::SF as Frame>::EQUILIBRIUM
             }
             fn spc(q: i64) -> Self::SF {
                 <Self::SF as Frame>::from_fn(|ch| spc_val(q, ch).to_sample::<<$S as Sample>::Signed>())
@@ -143,10 +186,11 @@ macro_rules! ad_frame {
                 <$T as Frame>::from_fn(|ch| raw::from_norm::<$S>(v[ch]))
             }
             fn lsb_f64() -> f64 {
-                if Self::IS_FLOAT {
+                // (from the format's width, not its storage size: I24 / U24 / I48 / U48 live in wider words)
+                if <$S as raw::Raw>::BITS == 0 {
                     0.0
                 } else {
-                    2.0 / 2f64.powi(8 * core::mem::size_of::<$S>() as i32)
+                    2.0 / 2f64.powi(<$S as raw::Raw>::BITS as i32)
                 }
             }
             const IS_FLOAT: bool = $name.as_bytes()[0] == b'f' || ($name.as_bytes()[0] == b'[' && $name.as_bytes()[1] == b'f');
